@@ -136,4 +136,29 @@ theorem earliest_unique (h : Cfg a b s) {x x' : ℝ} (hx : Earliest a b s k x) (
   · exact heq
   · have := hx.2.2.2 x' hx'.1 hgt; rw [hx'.2.2.1] at this; exact absurd this (lt_irrefl _)
 
+/-- the instant of the k-th operation in the cancellation-free (conjugate) form: `2k / (√(2ak+b²) + b)` -/
+noncomputable def xk2 (a b k : ℝ) : ℝ := 2 * k / (Real.sqrt (2 * a * k + b ^ 2) + b)
+
+/-- both closed forms denote the same instant wherever the profile has an operation -/
+theorem xk2_eq_xk (h : Cfg a b s) (hk0 : 0 ≤ k) (hk : k ≤ cum a b s) : xk2 a b k = xk a b k := by
+  have hR := radicand_nonneg h hk0 hk
+  have hs : Real.sqrt (2 * a * k + b ^ 2) ^ 2 = 2 * a * k + b ^ 2 := Real.sq_sqrt hR
+  have hr0 : 0 ≤ Real.sqrt (2 * a * k + b ^ 2) := Real.sqrt_nonneg _
+  have ha := h.a_ne
+  have hb := h.b_nonneg
+  unfold xk2 xk
+  by_cases hz : Real.sqrt (2 * a * k + b ^ 2) + b = 0
+  · have hr : Real.sqrt (2 * a * k + b ^ 2) = 0 := by linarith
+    have hb0 : b = 0 := by linarith
+    rw [hz, hr, hb0]; simp
+  · rw [div_eq_div_iff hz ha]
+    nlinarith [hs]
+
+/-- x₀ = 0 -/
+theorem xk_zero (h : Cfg a b s) : xk a b 0 = 0 := by
+  unfold xk
+  have : Real.sqrt (2 * a * 0 + b ^ 2) = b := by
+    rw [mul_zero, zero_add]; exact Real.sqrt_sq h.b_nonneg
+  rw [this]; simp
+
 end Pandora.Proofs.LineMath
